@@ -147,7 +147,7 @@ def collect(t, rnd):
             elif off > 0:
                 x = math.nextafter(x, INF)
             for large in (False, True):
-                obs.append({"k": "level", "pt": [n, d, off], "large": large, "lvl": str(f_level(x, large))})
+                obs.append({"k": "level", "pt": [n, d, off], "large": large, "lvl": str(f_level(x, large) if off else f_level(x, large=large))})
     # ---- pair-level API on threshold-bracketing and random pairs
     pl = nt[: (600 if t == "quick" else 6000)] + list(zip(rp[0:400:2], rp[1:400:2])) + coll[: (200 if t == "quick" else 2000)]
     # pairs within 3e-7 of a threshold, both sides (catalogue found offline; which side is decided by TLC with the fine tables)
@@ -165,7 +165,8 @@ def collect(t, rnd):
     pl += zo + zo          # twice: the size flag alternates with the index
     for idx, (a, b) in enumerate(pl):
         large = bool(idx & 1)
-        lvl = str(f_wcag(a, b, large)) if f_wcag else ""
+        # (the size flag positionally, by keyword, and - when it is False - not at all)
+        lvl = (str(f_wcag(a, b, large)) if idx % 3 == 0 else str(f_wcag(a, b, large=large)) if idx % 3 == 1 or large else str(f_wcag(a, b))) if f_wcag else ""
         p = ColorPair(a, b, large)
         e = {"k": "pair", "a": list(a), "b": list(b), "large": large, "lvl": lvl, "readable": str(p.is_readable)}
         if not f_wcag:
